@@ -604,3 +604,76 @@ Theorem C20_route_rebuild_refuted :
     /\ used x <> m.
 Proof. exact route_rebuild_refuted. Qed.
 Print Assumptions C20_route_rebuild_refuted.
+
+(** ** Round 9: the GEOMETRY of a render request (exactly one line, one column, many) and
+       the PAYLOAD it transmits ([model/SettingsGeom.v]) *)
+From TI Require Import model.SettingsGeom proofs.SettingsGeomProofs.
+
+(** the method used is the documented function of the requested method alone: the rendered
+    height in lines, the width in columns, the cell size and the original pixel size never
+    enter it *)
+Theorem C20_method_used_independent_of_geometry :
+  forall (s : rstyle) (eff : Z) (ov : option Z) (animated frame : bool) (size limit : Z)
+         (f : pfacts) (g : geom) (f' : pfacts) (g' : geom),
+    used (fst (render_geom s eff ov animated frame size limit f g))
+    = used (fst (render_geom s eff ov animated frame size limit f' g'))
+    /\ used (fst (render_geom s eff ov animated frame size limit f g))
+       = doc_used (match ov with Some m => m | None => eff end) animated frame.
+Proof. exact method_used_independent_of_geometry. Qed.
+Print Assumptions C20_method_used_independent_of_geometry.
+
+(** every render transmits the documented payload of the documented method, for every
+    geometry: LINES = one image of (columns x cell width) x (cell height) pixels per line,
+    WHOLE = one image of the original size when that is not larger than the render's (the
+    file verbatim where [read_from_file] applies), else of the render's pixel size *)
+Theorem C20_geom_payload_documented :
+  forall (s : rstyle) (eff : Z) (ov : option Z) (animated frame : bool) (size limit : Z)
+         (f : pfacts) (g : geom),
+    valid_method (used (render_used eff ov animated frame size limit)) ->
+    snd (render_geom s eff ov animated frame size limit f g)
+    = doc_payload s (doc_used (match ov with Some m => m | None => eff end) animated frame) f g.
+Proof. exact render_geom_documented. Qed.
+Print Assumptions C20_geom_payload_documented.
+
+(** whole histories whose render requests carry their geometry *)
+Theorem C20_geom_trace_spec :
+  forall (k : kind) (par : nat -> nat), wf_par par ->
+  forall (icls : nat -> nat) (src : sources) (s : rstyle) (facts : nat -> pfacts) (h : list geop),
+    (forall r, In r (rtrace k par icls src (rinit k) (map to_rop h)) -> valid_method (used r)) ->
+    gtrace s k par icls src facts h = spec_gtrace s k par icls src facts h.
+Proof. exact gtrace_spec. Qed.
+Print Assumptions C20_geom_trace_spec.
+
+(** when LINES and WHOLE are observationally distinguishable: their documented payloads
+    coincide exactly on a one-line render that is not sent verbatim and whose WHOLE size is
+    the render's pixel size ... *)
+Theorem C20_lines_whole_same_iff :
+  forall (s : rstyle) (f : pfacts) (g : geom),
+    doc_payload s LINES f g = doc_payload s WHOLE f g
+    <-> height_lines g = 1%nat /\ doc_whole_verbatim s f g = false
+        /\ doc_whole_size g = render_size g.
+Proof. exact lines_whole_same_iff. Qed.
+Print Assumptions C20_lines_whole_same_iff.
+
+(** ... so a one-line render of an original not larger than the render tells the methods
+    apart iff the original pixel size differs from the render's pixel size (or the file goes
+    out verbatim): the oracle is not vacuous on the generated one-line cases *)
+Theorem C20_one_line_distinguishable :
+  forall (s : rstyle) (f : pfacts) (g : geom),
+    height_lines g = 1%nat ->
+    (area (ori_size g) <= area (render_size g))%Z ->
+    (doc_payload s LINES f g <> doc_payload s WHOLE f g
+     <-> ori_size g <> render_size g \/ doc_whole_verbatim s f g = true).
+Proof. exact one_line_distinguishable. Qed.
+Print Assumptions C20_one_line_distinguishable.
+
+(** excluded design: 'one-line renders take WHOLE' *)
+Theorem C20_oneline_whole_refuted :
+  exists s eff ov f g,
+    height_lines g = 1%nat
+    /\ used (fst (render_geom_oneline s eff ov false false 0 0 f g))
+       <> doc_used (match ov with Some m => m | None => eff end) false false
+    /\ snd (render_geom_oneline s eff ov false false 0 0 f g)
+       <> doc_payload s (doc_used (match ov with Some m => m | None => eff end) false false) f g.
+Proof. exact oneline_whole_refuted. Qed.
+Print Assumptions C20_oneline_whole_refuted.
